@@ -77,6 +77,9 @@ CATALOGUE = [
     # a protected base is no base for conversions
     ("result-type", "peer", "hidden1"), ("assignment", "ival", "{ a.peer = hidden1; 1 }"), ("assignment", "ival", "{ let v: VfWidget = hidden1; 1 }"),
     ("arguments", "ival", "hidden1.ival"), ("operand-types", "bval", "hidden1 == a"),
+    # a declaration that is the whole branch of an if / else is scoped to that branch: it shadows nothing afterwards
+    ("result-type", "sval", "{ let s = 0; if ({B_d}) let s = {S}; return s; }"), ("assignment", "ival", "{ if ({B_d}) let t = 1; else let t = {S}; a.sval = t; 1 }"),
+    ("assignment", "ival", "{ let s = {S}; if ({B_d}) let s = 1; else let s = 2; a.ival = s; 1 }"), ("arguments", "ival", "{ if ({B_d}) let u = 1; u }"),
     # a void call is no argument; a namespace is no type
     ("arguments", "ival", "{ console.log(a.doIt()); 1 }"), ("arguments", "ival", "{ console.warn({I}, a.take({I_d})); 1 }"),
     ("arguments", "ival", "a.twice(a.doIt())"), ("arguments", "ival", "Math.max(a.doIt(), 1)"),
